@@ -481,7 +481,7 @@ def registry():
     def _(rng, form):
         T = np.eye(3) + rng.randn(3, 3) * 1e-3
         b = rng.randn(3) * 1e-2
-        seed = int(rng.randint(10 ** 6))
+        seed = int(rng.randint(10 ** 6)) * int(rng.rand() > 0.2)          # 0 is an integer seed like any other
         st_ = str(rng.choice(['rate', 'increment']))
 
         def call(readings, T_, b_, noise, walk):
@@ -493,7 +493,7 @@ def registry():
 
     @reg('inertial_sensor.Parameters.from_EstimationModel')
     def _(rng, form):
-        seed = int(rng.randint(10 ** 6))
+        seed = int(rng.randint(10 ** 6)) * int(rng.rand() > 0.2)          # 0 is an integer seed like any other
 
         def call(model, readings):
             p = isn.Parameters.from_EstimationModel(model, seed)
@@ -503,7 +503,7 @@ def registry():
 
     @reg('inertial_sensor.apply_imu_parameters', kind='imu')
     def _(rng, form):
-        seed = int(rng.randint(10 ** 6))
+        seed = int(rng.randint(10 ** 6)) * int(rng.rand() > 0.2)          # 0 is an integer seed like any other
         st_ = str(rng.choice(['rate', 'increment']))
 
         def call(imu):
@@ -581,14 +581,14 @@ def registry():
                     ('generate_body_velocity_measurements', ['VX', 'VY', 'VZ'])):
         def mk(g=g, cols=cols):
             def b(rng, form):
-                seed = int(rng.randint(10 ** 6))
+                seed = int(rng.randint(10 ** 6)) * int(rng.rand() > 0.2)          # 0 is an integer seed like any other
                 return (lambda tr: getattr(sim, g)(tr, 1.5, seed)), [traj(rng)], {}
             return b
         R[f'sim.{g}'] = dict(build=mk(), forms=('array',), kind='cols:' + ','.join(cols))
 
     @reg('sim.generate_pva_error', kind='pva_error')
     def _(rng, form):
-        seed = int(rng.randint(10 ** 6))
+        seed = int(rng.randint(10 ** 6)) * int(rng.rand() > 0.2)          # 0 is an integer seed like any other
         return (lambda: sim.generate_pva_error(10.0, 0.5, 0.2, 1.0, seed)), [], {}
 
     @reg('sim.perturb_pva', kind='pva')
@@ -616,7 +616,7 @@ def registry():
                 p['VD'] = 0.0
             inc = increments(rng, 40)
             truth = strapdown.Integrator(p, wa).integrate(inc)
-            seed = int(rng.randint(10 ** 6))
+            seed = int(rng.randint(10 ** 6)) * int(rng.rand() > 0.2)          # 0 is an integer seed like any other
             # the measurement tables cover MORE than the processed span (rows before the start and after the end)
             def longer(rows):
                 ext = pd.concat([rows.iloc[:2], rows, rows.iloc[-2:]])
@@ -817,6 +817,41 @@ def check_history_free(ctx, name, sub, form, out1, e):
     ctx.label('result_overwrite_checked')
 
 
+# entries whose DataFrame arguments are TYPED tables (Trajectory, Imu, Increments: columns documented by name): the same table
+# with its columns in another order is the same input, and a table result holds the same values under the same labels
+LABELLED_TABLE_ENTRIES = ('strapdown.compute_increments_from_imu', 'strapdown.Integrator.integrate', 'transform.translate_trajectory',
+                          'transform.compute_state_difference', 'transform.smooth_state', 'transform.resample_state',
+                          'inertial_sensor.apply_imu_parameters', 'error_model.propagate_errors',
+                          'sim.generate_position_measurements', 'sim.generate_ned_velocity_measurements', 'sim.generate_body_velocity_measurements')
+
+
+def _by_label(x):
+    """Table results with their columns sorted by label (order of the columns may follow the input)."""
+    if isinstance(x, pd.DataFrame):
+        return x[sorted(x.columns, key=str)]
+    if isinstance(x, (tuple, list)):
+        return type(x)(_by_label(v) for v in x)
+    return x
+
+
+def check_column_order(ctx, name, sub, form, out):
+    if name not in LABELLED_TABLE_ENTRIES:
+        return
+    e = get_registry()[name]
+    fn, args, kw = e['build'](np.random.RandomState(sub), form)
+    changed = False
+    for i, a in enumerate(args):
+        if isinstance(a, pd.DataFrame) and a.shape[1] >= 2:
+            args[i] = a[list(a.columns[::-1])]
+            changed = True
+    if not changed:
+        return
+    out_p = ctx.sut(fn, *args, **kw)
+    r = out_equal(_by_label(out), _by_label(out_p))
+    ctx.check(r is None, f'column_order_dependent:{name}', lambda: f'{name}: the same labelled table with its columns reversed gives a different result ({r})')
+    ctx.label('column_order_checked')
+
+
 def run_entry(case, ctx):
     nm = names()
     name = case.get('name') or nm[case['entry'] % len(nm)]      # saved replays pin the callable by name
@@ -835,6 +870,7 @@ def run_entry(case, ctx):
             ctx.check(r is None, f'forms_disagree:{name}', lambda: f'{name}: form {form} vs {base}: {r}')
     check_single(ctx, name, case['sub'], form, out)
     check_inplace_reuse(ctx, name, case['sub'], form)
+    check_column_order(ctx, name, case['sub'], form, out)
     ctx.mark_nontrivial(any(isinstance(a, (np.ndarray, pd.DataFrame, pd.Series)) for a in args))
 
 
@@ -951,6 +987,7 @@ def run_sweep(case, ctx):
         out, _ = execute(ctx, name, case['sub'], form)
         check_single(ctx, name, case['sub'], form, out)
         check_inplace_reuse(ctx, name, case['sub'], form)
+        check_column_order(ctx, name, case['sub'], form, out)
     ctx.label(f'entries={len(names())}')
     ctx.mark_nontrivial(True)
 
